@@ -293,6 +293,7 @@ from pyvc.unit import LemmaUnit
 class CountLemmas(LemmaUnit):
     prop = 'C03'
     qual = 'lemma(count)'
+    isolated = True          # the "sequence split" lemma is a search of z3's sequence solver: solved in a context of its own (DESIGN 8.18)
 
     def lemmas(self):
         L = ShuffleLemmas
